@@ -21,6 +21,7 @@
 package main
 
 import (
+	"bytes"
 	"encoding/hex"
 	"fmt"
 	"math"
@@ -408,10 +409,61 @@ func which(fl string, m *g.Msg) []string {
 			out = append(out, "VsServiceKeys")
 		}
 	}
+	if fl == "access" {
+		// the access node has its one validator of keys messages and no core validators
+		if m.Type == "keys" {
+			return []string{"VsAccessKeys"}
+		}
+		return nil
+	}
 	if v, ok := core[m.Type]; ok {
 		out = append(out, v)
 	}
 	return out
+}
+
+// signerSet is the keyper set whose members' signatures a Gnosis keys message must carry: the
+// observer's keyper_set row of a Gnosis keyper, the stored keyper set of the access node.
+func signerSet(fl string, st *g.State, eon uint64) ([]int, int, bool) {
+	if fl == "access" {
+		for _, a := range st.AnKSets {
+			if a.Eon == eon {
+				return a.Keypers, int(a.Threshold), true
+			}
+		}
+		return nil, 0, false
+	}
+	for _, k := range st.KSets {
+		if uint64(k.Kci) == eon {
+			return k.Keypers, int(k.Threshold), true
+		}
+	}
+	return nil, 0, false
+}
+
+// signaturesValid: every signature of a Gnosis keys message, taken alone, is the (deterministic)
+// signature of the member its signer index names over the message's own slot data. Returns the
+// first offending position. Messages whose signer list does not name members are not judged.
+func signaturesValid(mat *g.Material, fl string, st *g.State, m *g.Msg) (bool, int) {
+	if m.Type != "keys" || m.Extra.Kind != "gnosis" {
+		return true, -1
+	}
+	keypers, _, ok := signerSet(fl, st, m.Eon)
+	own := m.OwnTuple()
+	if !ok || own == nil || !own.Hashable() || len(m.Extra.Sigs) != len(m.Extra.Signers) {
+		return true, -1
+	}
+	for i, sg := range m.Extra.Sigs {
+		si := m.Extra.Signers[i]
+		if si >= uint64(len(keypers)) || keypers[si] < 0 {
+			return true, -1
+		}
+		want := mat.SigBytes(g.Sig{Kind: "by", Key: keypers[si], T: own})
+		if !bytes.Equal(mat.SigBytes(sg), want) {
+			return false, i
+		}
+	}
+	return true, -1
 }
 
 // keyLabels renders the decryption_key table with labels.
@@ -629,8 +681,22 @@ func (r *runner) runFlavour(c *caseJ) {
 		if res == "accept" && n.M.VerifNumValidators(topic) > 0 {
 			r.violate(c, "C04:"+c.Flavour+":envelope-mutation-accepted", "a message with a wrong topic / version / payload was accepted", res, "reject")
 		}
+	} else if !anyPanic && !c.Msg.NilInner() && c.Flavour == "access" {
+		if res == "accept" {
+			if ok, i := signaturesValid(mat, c.Flavour, c.State, c.Msg); !ok {
+				r.violate(c, "C04:access:keys:accepted-although-a-signature-is-invalid",
+					fmt.Sprintf("accepted although signature %d is not the named member's signature over the message's slot data", i), res, "reject")
+			}
+		}
+		if (res == "accept") != allAccept {
+			r.violate(c, "C04:access:combined-is-not-the-conjunction", "combined verdict is not 'all validators accept'", res, allAccept)
+		}
 	} else if !anyPanic && !c.Msg.NilInner() {
 		if res == "accept" {
+			if ok, i := signaturesValid(mat, c.Flavour, c.State, c.Msg); !ok {
+				r.violate(c, "C04:"+c.Flavour+":keys:accepted-although-a-signature-is-invalid",
+					fmt.Sprintf("accepted although signature %d is not the named member's signature over the message's slot data", i), res, "reject")
+			}
 			// the core validator is part of every keyper's chain: what it must refuse is refused here too
 			if wf, why := g.WfCore(mat, c.State, c.Msg); !wf {
 				r.violate(c, "C04:"+c.Flavour+":"+c.Msg.Type+":false-accept", "accepted although: "+why, res, "reject")
@@ -842,6 +908,7 @@ func (r *runner) forced(emit func(*caseJ)) {
 	}
 	r.forcedNear(emit)
 	r.forcedFlavour(emit)
+	r.forcedSignerSets(emit)
 	r.forcedHist(emit)
 	r.forcedProducer(emit)
 }
@@ -1002,6 +1069,64 @@ func (r *runner) forcedFlavour(emit func(*caseJ)) {
 			}
 			for _, e := range []envSpec{{MsgTopic: "decryptionTrigger"}, {Version: "0.0.2"}, {Payload: "foreign"}, {RegTopic: "EonPublicKey"}} {
 				emit(&caseJ{Kind: "flavour", Flavour: fl, State: sts[0], Msg: flavourMsg(fl, typ), Env: e, Origin: "forced:" + fl + ":envelope"})
+			}
+		}
+	}
+}
+
+// forcedSignerSets: Gnosis keys messages for keyper sets of five with threshold 3 and 4, as a
+// Gnosis keyper and as the access node see them: the genuine message, and one signature
+// replaced at EVERY position - by an outsider's, by another member's, by the right member's over
+// other slot data, by bytes that are no signature.
+func (r *runner) forcedSignerSets(emit func(*caseJ)) {
+	members := []int{0, 1, 2, 3, 4}
+	for _, fl := range []string{"gnosis", "access"} {
+		for _, th := range []int{3, 4} {
+			for _, signers := range map[int][][]uint64{3: {{0, 1, 2}, {0, 2, 4}}, 4: {{0, 1, 2, 3}, {0, 1, 3, 4}}}[th] {
+				st := baseState()
+				st.Name = fmt.Sprintf("signer-set-of-5-threshold-%d", th)
+				st.KSets = []g.KSetRow{{Kci: 1, Keypers: members, Threshold: int32(th)}}
+				if fl == "access" {
+					st.Name = "access:" + st.Name
+					st.AnKeys = []g.AnKey{{Eon: 1, Set: 0}}
+					st.AnKSets = []g.AnKSet{{Eon: 1, Keypers: members, Threshold: int32(th)}}
+				}
+				build := func() *g.Msg {
+					m := flavourMsg("gnosis", "keys")
+					m.Extra.Signers = append([]uint64(nil), signers...)
+					m.Extra.Sigs = nil
+					for _, si := range signers {
+						m.Extra.Sigs = append(m.Extra.Sigs, g.Sig{Kind: "by", Key: members[si]})
+					}
+					m.Fill()
+					return m
+				}
+				tag := fmt.Sprintf("forced:%s:signer-set:t=%d:signers=%v", fl, th, signers)
+				emit(&caseJ{Kind: "flavour", Flavour: fl, State: st, Msg: build(), Origin: tag + ":genuine"})
+				for p := range signers {
+					own := build().OwnTuple()
+					otherSlot := *own
+					otherSlot.Slot++
+					otherTxp := *own
+					otherTxp.Txp++
+					for _, rep := range []struct {
+						name string
+						sig  g.Sig
+					}{
+						{"outsider", g.Sig{Kind: "by", Key: 6, T: own}},
+						{"other-member", g.Sig{Kind: "by", Key: members[signers[(p+1)%len(signers)]], T: own}},
+						{"non-signing-member", g.Sig{Kind: "by", Key: members[(int(signers[p])+1)%len(members)], T: own}},
+						{"other-slot", g.Sig{Kind: "by", Key: members[signers[p]], T: &otherSlot}},
+						{"other-tx-pointer", g.Sig{Kind: "by", Key: members[signers[p]], T: &otherTxp}},
+						{"stray", g.Sig{Kind: "stray"}},
+						{"short", g.Sig{Kind: "short64"}},
+						{"bad-v", g.Sig{Kind: "badv"}},
+					} {
+						m := build()
+						m.Extra.Sigs[p] = rep.sig
+						emit(&caseJ{Kind: "flavour", Flavour: fl, State: st, Msg: m, Origin: fmt.Sprintf("%s:signature[%d]=%s", tag, p, rep.name)})
+					}
+				}
 			}
 		}
 	}
